@@ -3,6 +3,7 @@
 namespace sim {
 namespace detail {
 int gCurExec[kMaxSlots];
+std::uint64_t gCurJob[kMaxSlots];
 }  // namespace detail
 
 void Proxy::Submit(yaclib::Job& job) noexcept {
@@ -39,11 +40,14 @@ void ProxyJob::Call() noexcept {
   ++p._called;
   const int slot = Fiber();
   const int saved = detail::gCurExec[slot];
+  const std::uint64_t saved_job = detail::gCurJob[slot];
   detail::gCurExec[slot] = p._tag;
+  detail::gCurJob[slot] = (static_cast<std::uint64_t>(static_cast<std::uint32_t>(p._tag)) << 32U) | (1U + index);
   yaclib::Job* j = job;
   j->Call();
   // the proxy object outlives every job by construction of the scenarios; the record vector may have grown
   detail::gCurExec[Fiber()] = saved;
+  detail::gCurJob[Fiber()] = saved_job;
   p._jobs[index].call_end = Seq();
   delete this;
 }
